@@ -112,14 +112,15 @@ func Unreachable(name string) {
 func Requires(c bool, name string) { Assume(c) }
 func Ensures(c bool, name string)  { Assert(c, name) }
 func Havoc(p interface{})          {}
-func Call()                        {}
+func Real() bool                   { return true }
 func Proving() bool                { return false }
-func RetInt(i int) int             { return 0 }
-func RetU64(i int) uint64          { return 0 }
-func RetI64(i int) int64           { return 0 }
-func RetU32(i int) uint32          { return 0 }
-func RetU8(i int) uint8            { return 0 }
-func RetBool(i int) bool           { return false }
+func FreshInt() int                { panic(Skip{"fresh value on replay"}) }
+func FreshU64() uint64             { panic(Skip{"fresh value on replay"}) }
+func FreshI64() int64              { panic(Skip{"fresh value on replay"}) }
+func FreshU32() uint32             { panic(Skip{"fresh value on replay"}) }
+func FreshU8() uint8               { panic(Skip{"fresh value on replay"}) }
+func FreshBool() bool              { panic(Skip{"fresh value on replay"}) }
+func FreshIntG() Int               { panic(Skip{"fresh value on replay"}) }
 func Engine() bool                 { return false }
 func IsConcrete(x interface{}) bool { return true }
 func Log(name string, x interface{}) {}
